@@ -2,6 +2,7 @@ package a
 
 import (
 	"bytes"
+	"context"
 	"encoding/json"
 	"fmt"
 	"net/http"
@@ -12,9 +13,11 @@ import (
 
 	"github.com/buildbuildio/pebbles"
 	"github.com/buildbuildio/pebbles/executor"
+	"github.com/buildbuildio/pebbles/introspection"
 	"github.com/buildbuildio/pebbles/merger"
 	"github.com/buildbuildio/pebbles/planner"
 	"github.com/buildbuildio/pebbles/queryer"
+	"github.com/buildbuildio/pebbles/requests"
 	"github.com/vektah/gqlparser/v2"
 	"github.com/vektah/gqlparser/v2/ast"
 	"github.com/vektah/gqlparser/v2/validator"
@@ -26,6 +29,12 @@ type Config struct {
 	Hint    bool   // WithGetParentTypeFromIDFunc
 	Planner string // "plain" | "cached"
 	BatchM  int    // downstream max batch size (0 = 3000)
+	// IntroFail != 0: the schemas are fetched by the real ParallelRemoteSchemaIntrospector from
+	// spec-shaped responders; k > 0: the introspection of service k-1 fails (-1: none fails)
+	IntroFail int
+	// DefaultFactory: no WithQueryerFactory option - the gateway's own factory makes the queryers
+	// (they use http.DefaultClient, whose transport is pointed at the in-memory services)
+	DefaultFactory bool
 }
 
 func (c Config) String() string {
@@ -33,7 +42,14 @@ func (c Config) String() string {
 	if m == 0 {
 		m = 3000
 	}
-	return fmt.Sprintf("merger=%s,hint=%v,planner=%s,m=%d", c.Merger, c.Hint, c.Planner, m)
+	out := fmt.Sprintf("merger=%s,hint=%v,planner=%s,m=%d", c.Merger, c.Hint, c.Planner, m)
+	if c.IntroFail != 0 {
+		out += fmt.Sprintf(",introfail=%d", c.IntroFail)
+	}
+	if c.DefaultFactory {
+		out += ",default-queryer-factory"
+	}
+	return out
 }
 
 func (c Config) Atoms() []string {
@@ -46,6 +62,12 @@ func (c Config) Atoms() []string {
 	}
 	if c.Planner == "cached" {
 		a = append(a, "cfg-cached-planner")
+	}
+	if c.IntroFail > 0 {
+		a = append(a, "cfg-introspection-failure")
+	}
+	if c.DefaultFactory {
+		a = append(a, "cfg-default-queryer-factory")
 	}
 	if c.BatchM != 0 && c.BatchM != 3000 {
 		a = append(a, fmt.Sprintf("cfg-m%d", c.BatchM))
@@ -85,6 +107,9 @@ type Fed struct {
 	Fakes  *Fakes
 	Merged *ast.Schema
 	TUM    merger.TypeURLMap
+	// GWSchema is the schema object the gateway itself validates with (captured from its merger);
+	// read-only for the harness
+	GWSchema *ast.Schema
 	sp     *swapPlanner
 	docs   map[string]*ast.QueryDocument
 	// Guard, if set, is asked before every downstream call with the planning context of the
@@ -120,18 +145,34 @@ func NewFed(w *World, cfg Config) (*Fed, error) {
 	}
 	var sp planner.SequentialPlanner
 	f.sp = &swapPlanner{inner: sp}
+	var intro introspection.RemoteSchemaIntrospector = &staticIntro{schemas}
+	if cfg.IntroFail != 0 {
+		byURL := map[string]queryer.Queryer{}
+		for i, sv := range w.Services {
+			if i == cfg.IntroFail-1 {
+				byURL[sv.URL] = &downQueryer{url: sv.URL}
+			} else {
+				byURL[sv.URL] = &introQueryer{url: sv.URL, schema: schemas[i]}
+			}
+		}
+		intro = &introspection.ParallelRemoteSchemaIntrospector{Factory: func(u string) queryer.Queryer { return byURL[u] }}
+	}
 	opts := []pebbles.GatewayOption{
-		pebbles.WithRemoteSchemaIntrospector(&staticIntro{schemas}),
+		pebbles.WithRemoteSchemaIntrospector(intro),
 		pebbles.WithMerger(cm),
 		pebbles.WithPlanner(f.sp),
-		pebbles.WithQueryerFactory(func(pc *planner.PlanningContext, u string) queryer.Queryer {
+	}
+	if cfg.DefaultFactory {
+		f.useDefaultClient()
+	} else {
+		opts = append(opts, pebbles.WithQueryerFactory(func(pc *planner.PlanningContext, u string) queryer.Queryer {
 			// like the default factory, a queryer belongs to the request it was made for: the default
 			// factory reads the context of the client's request here (a request parsed without its
 			// Original is a nil dereference in a worker goroutine)
 			_ = pc.Request.Original.Context()
 			c := &http.Client{Transport: &boundTransport{f: f, pc: pc, url: u}}
 			return queryer.NewMultiOpQueryer(u, m).WithHTTPClient(c)
-		}),
+		}))
 	}
 	if cfg.Hint {
 		opts = append(opts, pebbles.WithGetParentTypeFromIDFunc(executor.GetParentTypeFromIDFunc(w.TypeOfID)))
@@ -142,11 +183,15 @@ func NewFed(w *World, cfg Config) (*Fed, error) {
 	}
 	f.GW = gw
 	f.TUM = cm.res.TypeURLMap
+	f.GWSchema = cm.res.Schema
 	// the reference side works on a merged schema of its own (merged a second time from freshly
 	// parsed service schemas): whatever the gateway does to its schema object at run time must
 	// not reach the oracle
 	var inputs []*merger.MergeInput
-	for _, s := range w.Services {
+	for i, s := range w.Services {
+		if cfg.IntroFail > 0 && i == cfg.IntroFail-1 {
+			continue // a gateway that starts without this service serves the others
+		}
 		sc, err := gqlparser.LoadSchema(&ast.Source{Name: s.URL, Input: s.SDL})
 		if err != nil {
 			return nil, err
@@ -225,9 +270,15 @@ func pickOp(d *ast.QueryDocument, name string) *ast.OperationDefinition {
 
 // Post sends a raw body to the real handler.
 func (f *Fed) Post(body []byte, contentType string) (int, []byte) {
-	r, _ := http.NewRequest("POST", "/", bytes.NewReader(body))
+	// like net/http's server, the context of the request ends when the handler has returned
+	ctx, cancel := context.WithCancel(context.Background())
+	defer cancel()
+	r, _ := http.NewRequestWithContext(ctx, "POST", "/", bytes.NewReader(body))
 	if contentType != "" {
 		r.Header.Set("Content-Type", contentType)
+	}
+	if f.Cfg.DefaultFactory {
+		f.useDefaultClient()
 	}
 	rr := httptest.NewRecorder()
 	f.GW.Handler(rr, r)
@@ -287,3 +338,20 @@ func (f *Fed) Run(c Case) *Obs {
 
 // SetPlanner installs the planner used for the next requests (Engine B histories).
 func (f *Fed) SetPlanner(p planner.Planner) { f.sp.inner = p }
+
+// downQueryer is a service that is down: every call fails at transport level.
+type downQueryer struct{ url string }
+
+func (q *downQueryer) URL() string { return q.url }
+func (q *downQueryer) Query([]*requests.Request) ([]map[string]interface{}, error) {
+	return nil, fmt.Errorf("Post %q: dial tcp: connection refused", q.url)
+}
+func (q *downQueryer) Subscribe(*requests.Request, <-chan struct{}, chan *requests.Response) error {
+	return fmt.Errorf("dial tcp: connection refused")
+}
+
+// useDefaultClient points http.DefaultClient (what the gateway's own queryer factory uses) at
+// this federation's in-memory services.  One federation at a time owns the default client.
+func (f *Fed) useDefaultClient() {
+	http.DefaultClient.Transport = f.Fakes
+}
